@@ -2,10 +2,13 @@
    `transparent f g xs`: every clause x of xs has one status g x in every state and gives the state back (records
    may be emitted). For such clauses the theorems hold for bodies of any shape; that memoised variables and cached
    rule statuses keep clauses transparent is the part carried by the permutation differential on the
-   implementation (see DESIGN.md, C04). *)
+   implementation (see DESIGN.md, C04).
+   For the VARIABLE-FREE fragment (pure_clause: queries, filters, blocks, when blocks, type blocks that mention no variable,
+   no capture, no function and no other rule) the hypothesis is discharged: C04_pure_* below hold of the evaluator model
+   itself, for bodies of any shape, whenever every clause of the body evaluates (no error, no panic site, enough fuel). *)
 From Coq Require Import Permutation.
 From GV.Model Require Import SEval.
-From GV.Proofs Require Import StatusProps EvalLaws OrderProps.
+From GV.Proofs Require Import StatusProps EvalLaws OrderProps FrameProps PureProps.
 
 Theorem C04_perm_lines : forall T (f : T -> M status) g cnf cnf' s,
   Permutation cnf cnf' -> transparent f g (List.concat cnf) ->
@@ -60,3 +63,56 @@ Theorem C04_cached_status_is_returned : forall prog r name st s,
   rule_status_body prog r name s = Done (st, [], s).
 Proof. exact cached_status_is_returned. Qed.
 Print Assumptions C04_cached_status_is_returned.
+
+(* ---- the variable-free fragment: no hypothesis on the clause evaluator ---- *)
+
+(* an evaluation in the fragment hands back exactly the state it was given *)
+Theorem C04_pure_clause_gives_state_back : forall re conv prog fuel s x st recs s',
+  pure_clause x = true -> ev_clause (evalN re conv prog fuel) x s = Done (st, recs, s') -> s' = s.
+Proof. exact pure_clause_gives_state_back. Qed.
+Print Assumptions C04_pure_clause_gives_state_back.
+
+Theorem C04_pure_body_status : forall re conv prog fuel cnf s,
+  pure_cnf cnf = true ->
+  (forall x, In x (List.concat cnf) -> evaluates (ev_clause (evalN re conv prog fuel)) s x) ->
+  exists recs, cnf_body (ev_clause (evalN re conv prog fuel)) cnf s
+               = Done (conj_status (map (map (status_in (ev_clause (evalN re conv prog fuel)) s)) cnf), recs, s).
+Proof. exact pure_body_status. Qed.
+Print Assumptions C04_pure_body_status.
+
+Theorem C04_pure_perm_lines : forall re conv prog fuel cnf cnf' s,
+  pure_cnf cnf = true ->
+  (forall x, In x (List.concat cnf) -> evaluates (ev_clause (evalN re conv prog fuel)) s x) ->
+  Permutation cnf cnf' ->
+  status_of (cnf_body (ev_clause (evalN re conv prog fuel)) cnf s)
+  = status_of (cnf_body (ev_clause (evalN re conv prog fuel)) cnf' s).
+Proof. exact pure_perm_lines. Qed.
+Print Assumptions C04_pure_perm_lines.
+
+Theorem C04_pure_perm_alternatives : forall re conv prog fuel line line' rest s,
+  pure_cnf (line :: rest) = true ->
+  (forall x, In x (List.concat (line :: rest)) -> evaluates (ev_clause (evalN re conv prog fuel)) s x) ->
+  Permutation line line' ->
+  status_of (cnf_body (ev_clause (evalN re conv prog fuel)) (line :: rest) s)
+  = status_of (cnf_body (ev_clause (evalN re conv prog fuel)) (line' :: rest) s).
+Proof. exact pure_perm_alternatives. Qed.
+Print Assumptions C04_pure_perm_alternatives.
+
+Theorem C04_pure_dup_line : forall re conv prog fuel line rest s,
+  pure_cnf rest = true ->
+  (forall x, In x (List.concat rest) -> evaluates (ev_clause (evalN re conv prog fuel)) s x) ->
+  In line rest ->
+  status_of (cnf_body (ev_clause (evalN re conv prog fuel)) (line :: rest) s)
+  = status_of (cnf_body (ev_clause (evalN re conv prog fuel)) rest s).
+Proof. exact pure_dup_line. Qed.
+Print Assumptions C04_pure_dup_line.
+
+(* the body of a rule: clauses, when blocks and type blocks at rule level *)
+Theorem C04_pure_rule_perm_lines : forall re conv prog fuel cnf cnf' s,
+  forallb (forallb pure_rule_clause) cnf = true ->
+  (forall x, In x (List.concat cnf) -> evaluates (rule_clause_body re prog (evalN re conv prog fuel)) s x) ->
+  Permutation cnf cnf' ->
+  status_of (cnf_body (rule_clause_body re prog (evalN re conv prog fuel)) cnf s)
+  = status_of (cnf_body (rule_clause_body re prog (evalN re conv prog fuel)) cnf' s).
+Proof. exact pure_rule_perm_lines. Qed.
+Print Assumptions C04_pure_rule_perm_lines.
